@@ -16,7 +16,11 @@ pub struct Rng {
 /// by Knuth and H. W. Lewis.
 impl Rng {
     pub fn new(seed: u64) -> Self {
-        Rng { seed }
+        // Reducing the seed keeps the generator state within the modulus, so
+        // the LCG step can't overflow and `latest_random` stays below 1.
+        Rng {
+            seed: seed % MODULUS,
+        }
     }
 
     pub fn random(&mut self) -> f64 {
